@@ -54,6 +54,16 @@ pub fn check(f: &F, p: Pipe, s: &str, expect: &CV) -> Result<(), String> {
             let got = cv_of(&n);
             if &got != expect {
                 Err(format!("{p:?} {s:?} parses to {} instead of {}", show_cv(&got), show_cv(expect)))
+            } else if p == Pipe::Enum {
+                // the character-vector route of the enum parser on the same spacing
+                let f2 = *f;
+                let chars: Vec<char> = s.chars().collect();
+                match quiet_catch(AssertUnwindSafe(move || f2.e.parse_chars::<Narsese>(chars).map(|n| cv_of(&n)).map_err(|e| e.to_string()))) {
+                    Ok(Ok(cv)) if &cv == expect => Ok(()),
+                    Ok(Ok(cv)) => Err(format!("parse_chars on {s:?} gives {} instead of {}", show_cv(&cv), show_cv(expect))),
+                    Ok(Err(e)) => Err(format!("parse_chars rejects {s:?} ({e}) although parse accepts it as {}", show_cv(expect))),
+                    Err(p) => Err(format!("parse_chars panics on {s:?}: {p}")),
+                }
             } else {
                 Ok(())
             }
